@@ -24,14 +24,16 @@ import urllib.parse
 import common
 
 CTYPES = [None, b'text/plain', b'text/plain; charset=utf-8', b'text/plain; charset=latin-1',
-          b'application/json', b'application/octet-stream', b'image/png']
+          b'application/json', b'application/octet-stream', b'image/png', b'text/plain; charset=ascii',
+          b'text/plain; charset="UTF-8"', b'Text/Plain', b'text/plain;charset=US-ASCII', b'application/json; charset=utf-8',
+          b'application/x-www-form-urlencoded', b'text/plain; charset=ISO-8859-1', b'', b'*/*']
 
 
 # ---------------------------------------------------------------- wire helpers
 
 def w_action(a):
-    if a[0] == 'skip':
-        return [0]
+    if a[0] in ('skip', 'ops'):     # 'ops': several operations on the part, judged by ModelPartOps (op 11);
+        return [0]                  # for the form-level model the part is then simply not consumed (parse_loop_skip)
     if a[0] == 'read':
         return [1, [] if a[1] is None else [a[1]]]
     if a[0] == 'get_data':
@@ -149,6 +151,98 @@ def public_view(part):
     return out
 
 
+POP_W = {'read': 0, 'get_data': 1, 'get_text': 2, 'get_media': 3}
+
+
+def w_pop(o):
+    return [0, [] if o[1] is None else [o[1]]] if o[0] == 'read' else [POP_W[o[0]]]
+
+
+def r_pres(v):
+    t = v[0]
+    if t == 0:
+        return ('bytes', bytes(v[1]))
+    if t == 1:
+        return ('text', common.wstr(v[1][0]) if v[1] else None)
+    if t == 2:
+        return ('media', v[1])
+    if t == 6:
+        return ('handler_error', v[1])
+    return ({3: 'too_large', 4: 'bad_text', 5: 'bad_header', 7: 'unsupported', 8: 'need'}[t],)
+
+
+class Recorder:
+    """media handlers installed into parse_options.media_handlers: they record what BodyPart.get_media
+    delegates (handler, content type, bytes read) and then behave like the built-in handler"""
+
+    def __init__(self):
+        self.log, self.objs, self.oks = [], [], []
+
+    def make(self, mods, hid, real, exhaust):
+        rec = self
+
+        class H(mods['BaseHandler']):
+            exhaust_stream = exhaust
+
+            def _finish(self, content_type, data):
+                rec.log.append((hid, content_type, data))
+                try:
+                    obj = real.deserialize(io.BytesIO(data), content_type, len(data))
+                except Exception:
+                    rec.oks.append(False)
+                    rec.objs.append(None)
+                    raise
+                rec.oks.append(True)
+                rec.objs.append(obj)
+                return obj
+
+            def deserialize(self, stream, content_type, content_length):
+                return self._finish(content_type, stream.read())
+
+            async def deserialize_async(self, stream, content_type, content_length):
+                return self._finish(content_type, await stream.read())
+
+        return H()
+
+
+def do_ops(part, ops, variant, run, asyn, mods, rec, base):
+    """several operations on one part; every outcome (value or exception class) is an observation"""
+    out = []
+    for j, o in enumerate(ops):
+        alt = (variant + j) % 2
+        n0 = len(rec.log)
+        try:
+            if o[0] == 'read':
+                r = part.stream.read() if o[1] is None else part.stream.read(o[1])
+                out.append(('bytes', run(r) if asyn else r))
+            elif o[0] == 'get_data':
+                r = part.data if alt else part.get_data()
+                out.append(('bytes', run(r) if asyn else r))
+            elif o[0] == 'get_text':
+                r = part.text if alt else part.get_text()
+                out.append(('text', run(r) if asyn else r))
+            else:
+                r = part.media if alt else part.get_media()
+                obj = run(r) if asyn else r
+                ks = [k - base for k, x in enumerate(rec.objs) if k >= base and x is obj and rec.oks[k]]
+                out.append(('media', ks[0] if ks else -1))
+        except mods['MPE'] as e:
+            d = e.description or ''
+            out.append(('too_large',) if d == 'body part is too large' else
+                       ('bad_text',) if d.startswith('invalid text or charset') else
+                       ('bad_header',) if 'Content-Type header' in d else ('parse_error', d))
+        except mods['Unsupported']:
+            out.append(('unsupported',))
+        except Hang:
+            raise
+        except Exception as e:  # noqa: BLE001
+            if len(rec.log) > n0:
+                out.append(('handler_error', len(rec.log) - 1 - base))
+            else:
+                out.append(('raises', type(e).__name__))
+    return out
+
+
 def do_action(part, act, variant, run):
     """returns the bytes the application obtained from the part (None for skip)"""
     k = act[0]
@@ -211,14 +305,21 @@ def act_tuple(a, kind, asyn, extra):
     return ('skip',)
 
 
+HANDLER_KEYS = [b'application/json', b'application/x-www-form-urlencoded']
+
+
 def run_form(mods, case, asyn):
     """iterate the real parser under the script; returns (parts, status, views)"""
     handler = mods['Handler']()
     o = handler.parse_options
     o.max_body_part_count, o.max_body_part_headers_size, o.max_body_part_buffer_size = case['cfg']
+    rec = Recorder()
+    for hid, key in enumerate(HANDLER_KEYS):      # recording wrappers of the built-in part handlers
+        o.media_handlers[key.decode()] = rec.make(mods, hid, o.media_handlers[key.decode()], exhaust=bool(hid))
     body = case['body']
     script = annotate(case['script'], case.get('parts') or [])
     parts, views, status = [], [], ('done',)
+    opres = {}
     times = case.get('times') or []
     kept = []
     try:
@@ -250,6 +351,10 @@ def run_form(mods, case, asyn):
             if when in ('before', 'twice'):
                 reads.append(public_view(part))
             a, kind, extra = script[i] if i < len(script) else (('skip',), None, None)
+            if a[0] == 'ops':
+                base = len(rec.log)
+                res = do_ops(part, a[1], i + case.get('variant', 0), step, asyn, mods, rec, base)
+                opres[i] = (res, list(rec.log[base:]), list(rec.oks[base:]))
             try:
                 data = do_action(part, act_tuple(a, kind, asyn, extra), i + case.get('variant', 0), step)
             except mods['MPE']:
@@ -269,7 +374,7 @@ def run_form(mods, case, asyn):
         for part, when, reads in kept:          # the late reads, after the iteration is over
             if when in ('end', 'twice'):
                 reads.append(public_view(part))
-    return parts, status, views
+    return parts, status, views, opres
 
 
 # ---------------------------------------------------------------- generators
@@ -369,12 +474,16 @@ def decorate(rng, f, headers):
             'ctype': eff, 'json': is_json and eff == b'application/json'}
 
 
-def gen_script(rng, parts, cs_eff):
+def gen_script(rng, parts, cs_eff, valid=False):
     script = []
     for p in parts:
         x = rng.random()
         n = len(p['content'])
-        if x < 0.2:
+        if valid and rng.random() < 0.3:
+            pool = [('get_data',), ('get_text',), ('get_media',), ('get_media',), ('get_text',),
+                    ('read', None), ('read', rng.choice([0, 1, 3, n]))]
+            script.append(('ops', [rng.choice(pool) for _ in range(rng.randint(1, 4))]))
+        elif x < 0.2:
             script.append(('skip',))
         elif x < 0.45:
             script.append(('read', None))
@@ -474,7 +583,7 @@ def case_detail(case, which):
 
 
 def judge(ctx, which, case, impl, model_run, oracle):
-    parts, status, views = impl
+    parts, status, views, opres = impl
     detail = case_detail(case, which)
     bad = False
     if status[0] in ('crash', 'hang'):
@@ -519,6 +628,29 @@ def judge(ctx, which, case, impl, model_run, oracle):
                                        what='BodyPart.content_type/.name/.filename/.secure_filename differ from the '
                                             'encoded field (= view_of of the expected headers, C13_form_roundtrip)'),
                                   key='%s-view' % which)
+                    break
+        if not bad:
+            for i, (res, log, oks) in sorted(opres.items()):
+                exp = case.get('coq_ops', {}).get(i)
+                if exp is None:
+                    continue
+                eres, elog = exp
+                for j, (x, y) in enumerate(zip(res, eres)):
+                    if y == ('need',):
+                        ctx.count('partop-outside-model-domain')
+                        continue
+                    if x != y:
+                        bad = True
+                        break
+                if not bad and len(res) == len(eres) and all(y != ('need',) for y in eres) and log != elog:
+                    bad = True
+                if bad:
+                    ctx.violation('%s-bodypart-operations' % which,
+                                  dict(detail, part=i, ops=jsonable(case['script'][i][1]), impl=jsonable(res),
+                                       model=jsonable(eres), impl_handler_log=jsonable(log), model_handler_log=jsonable(elog),
+                                       what='get_data/get_text/get_media/stream.read on one part: results, caching or the '
+                                            'delegation to the media handler differ from ModelPartOps.prun'),
+                                  key='%s-partops' % which)
                     break
     elif not bad and case.get('model_views') is not None:
         # corrupted body: the attributes must be what ModelPart computes from the header dictionary
@@ -623,7 +755,7 @@ def attach_coq_views(model, keep):
 def specialise(rng, base, asyn):
     c = dict(base)
     c.update(gen_transport(rng, c['body'], c['boundary'], asyn))
-    c['script'] = gen_script(rng, c.get('parts') or [{'content': b''}] * 3, cs_eff(c, asyn))
+    c['script'] = gen_script(rng, c.get('parts') or [{'content': b''}] * 3, cs_eff(c, asyn), bool(c.get('valid')))
     c['cfg'] = gen_cfg(rng, c.get('parts') or [], c['script'])
     c['variant'] = rng.randint(0, 2)
     nparts = max(len(c.get('parts') or []), 3)
@@ -694,6 +826,24 @@ def run_batch(ctx, mods, model, cases, asyn, tag):
                          for c in vcases])
     for c, out in zip(vcases, mv):
         c['coq_reads'] = [[r_view(v) for v in reads] for reads in out]
+    # valid forms, parts consumed by several operations: ModelPartOps.prun on the expected headers and the
+    # encoded content, with the handler outcomes [hok] observed in the real run
+    pw, pwhere = [], []
+    for c, im in zip(cases, impls):
+        if not c.get('valid') or im[1][0] in ('crash', 'hang'):
+            continue
+        c['coq_ops'] = {}
+        for i, (res, log, oks) in im[3].items():
+            if i >= len(c['parts']):
+                continue
+            content = c['parts'][i]['content']
+            pw.append([11, min(c['cfg'][2], len(content) + 10), 'utf-8',
+                       [[k, hid] for hid, k in enumerate(HANDLER_KEYS)], oks, c['exp_headers'][i], content,
+                       [w_pop(o) for o in c['script'][i][1]]])
+            pwhere.append((c, i))
+    for (c, i), out in zip(pwhere, model.run_many(pw)):
+        c['coq_ops'][i] = ([r_pres(v) for v in out[0]],
+                           [(hid, common.wstr(ct), bytes(inp)) for hid, ct, inp in out[1]])
     owires, oidx = [], []
     for i, (c, im) in enumerate(zip(cases, impls)):
         if c.get('valid') and im[1][0] in ('done', 'failed'):
@@ -758,7 +908,10 @@ def load_mods():
     from falcon.media.multipart import MultipartFormHandler, MultipartParseError
     from falcon.util.reader import BufferedReader as SR
     from falcon.asgi.reader import BufferedReader as AR
-    return {'Handler': MultipartFormHandler, 'MPE': MultipartParseError, 'SR': SR, 'AR': AR}
+    from falcon.media.base import BaseHandler
+    from falcon import HTTPUnsupportedMediaType
+    return {'Handler': MultipartFormHandler, 'MPE': MultipartParseError, 'SR': SR, 'AR': AR,
+            'BaseHandler': BaseHandler, 'Unsupported': HTTPUnsupportedMediaType}
 
 
 def main(ctx):
